@@ -11,7 +11,7 @@ COMMON_ASSUMPTIONS = [
 
 PROPS = {
     "C01": {
-        "rules": ["T4", "T5", "T11", "T6", "T3", "G1", "G1c", "G2", "G3", "G4", "G5", "K6", "T13", "N2", "G7"],
+        "rules": ["T4", "T5", "T11", "T6", "T3", "G1", "G1c", "G2", "G3", "G4", "G5", "K6", "T13", "N2", "G7", "T2"],
         "decides": "Per-keyword conformance skeleton: one type-guarded validator per keyword, spec comparison "
                    "operators, bool-aware deep JSON equality, member resolution cases, composition counting, "
                    "validate-all-then-construct, recursive parsing of every sub-schema position.",
@@ -40,7 +40,7 @@ PROPS = {
         "not_decided": "key collisions between JSON and Python names in the result; which composition branch builds it.",
     },
     "C05": {
-        "rules": ["G6", "G7", "K4", "K3", "P1", "G3", "K1"],
+        "rules": ["G6", "G7", "K4", "K3", "P1", "G3", "K1", "G5"],
         "decides": "the three-way default/marker/value decision and its never-an-error handler in Element.__call__ "
                    "and Object.__new__/__init__; required waived exactly for defaulted properties; placeholders "
                    "keyed in the look-up name space; defaults never tested by truthiness.",
@@ -94,7 +94,7 @@ PROPS = {
         "not_decided": "correctness of the ordering for every graph (algorithmic, not a shape).",
     },
     "C12": {
-        "rules": ["N1", "N2", "N3", "T7", "T14", "T12", "N4", "K4"],
+        "rules": ["N1", "N2", "N3", "T7", "T14", "T12", "N4", "K4", "P2"],
         "decides": "output alphabet / first character of mapped attribute names, reserved suffix applied last and "
                    "closed; collision handling present; class-name guard present; reserved list covers instance storage.",
         "not_decided": "that dedupe's numeric suffixes never collide with formatted titles.",
@@ -128,7 +128,7 @@ PROPS = {
                        "third-party code).",
     },
     "C17": {
-        "rules": ["G10", "T2", "K6b", "P4"],
+        "rules": ["G10", "T2", "K6b", "P4", "T12"],
         "decides": "class-guard idiom gives exact-type, symmetric equality; equality inspects every configuration "
                    "attribute; Property equality covers every field; literal comparison inside equality.",
         "not_decided": "'serialize to the same JSON' for classes (names are deliberately not part of equality).",
